@@ -222,7 +222,7 @@ class Session:
         b = hash_str(",".join(str(i) for i in sorted(self.uid(u) for u in Unit._base)))
         g = hash_str("\n".join(
             "%d>%s" % (self.uid(a), ",".join(str(self.uid(c)) for c in row))
-            for a, row in conversions._ratios.items() if row))
+            for a, row in sorted(conversions._ratios.items(), key=lambda kv: self.uid(kv[0])) if row))
         return ("n=%d units=%d byName=%d bySym=%d pfxByName=%d pfxBySym=%d dimByName=%d base=%d graph=%d"
                 % (len(self.units), us, bn, bs, pn, ps, dn, b, g))
 
